@@ -203,6 +203,10 @@ pub fn run(tier: Tier) -> i32 {
             rds.push(Rd { period: 1, ..Rd::default() });
             rds.push(Rd { cuts: vec![n / 2], ..Rd::default() });
             rds.push(Rd { period: 65535, ..Rd::default() });
+            // a tiny first fragment followed by everything else at once (a staging path followed by a bulk path)
+            rds.push(Rd { cuts: vec![1], ..Rd::default() });
+            rds.push(Rd { cuts: vec![100.min(n - 1)], ..Rd::default() });
+            rds.push(Rd { cuts: vec![n - 1], ..Rd::default() });
         }
         for fmt in [Fmt::Lzma, Fmt::Lzma2, Fmt::Xz] {
             let sizes: Vec<EncSize> = if fmt == Fmt::Lzma { sizes_for(n).to_vec() } else { vec![EncSize::Skip] };
